@@ -14,7 +14,7 @@ import re
 from pydiffx.errors import BaseDiffXError, DiffXParseError
 
 from mc import spec
-from mc.alphabets import (TEXTS, METAS, DIFFS, ENCODINGS, DIFF_ENCODINGS,
+from mc.alphabets import (BOUNDARY_SIZES_Q, TEXTS, METAS, DIFFS, ENCODINGS, DIFF_ENCODINGS,
                           INDENTS, LINE_ENDINGS, MIMETYPES, DIFF_TYPES,
                           SCOPE_ENCODINGS, encodable, misaligned)
 from mc.explore import bfs, freeze
@@ -726,4 +726,151 @@ def wr_run_unit(unit, tier, oracle, allow_misaligned, pid):
             acc.states += 1
     acc.sample({'root': root, 'skeleton': sk,
                 'deviating_slots': [list(c) for c in combos[-1:]]}, 1)
+    return acc
+
+
+# --------------------------------------------------- scale (boundary sizes)
+# Small alphabets cannot reach behaviour that changes when a size or count
+# crosses a threshold. The scale pass enumerates, one dimension at a time
+# (and all pairs in thorough), BOUNDARY values of every scalable quantity:
+# counts of changes / files, lines per content, line length around the
+# reader's 96-byte block and beyond, indentation, metadata width / depth /
+# string length, diff size. It is exhaustive over the listed boundary values,
+# not a sample.
+
+SCALE_DIMS = {
+    'changes': [1, 2, 3, 4, 5, 10, 33],
+    'files': [1, 2, 3, 4, 5, 10, 33],
+    'pre_lines': [1, 2, 9, 10, 11, 99, 100, 101, 1000],
+    'pre_width': [1, 94, 95, 96, 97, 191, 192, 193, 255, 256, 1000, 5000,
+                  70000],
+    'indent': [4, 8, 9, 10, 11, 16, 99, 100, 101, 1000],
+    'meta_keys': [1, 2, 9, 10, 11, 100, 1000],
+    'meta_depth': [1, 2, 3, 4, 5, 8, 16, 64],
+    'meta_strlen': [1, 95, 96, 97, 1000, 70000],
+    'diff_lines': [1, 2, 9, 10, 11, 99, 100, 101, 1000, 10000],
+    'diff_width': [1, 95, 96, 97, 192, 1000, 70000],
+    # exact total content sizes around buffer-size boundaries
+    'pre_total': [0] + BOUNDARY_SIZES_Q,
+    'diff_total': [0] + BOUNDARY_SIZES_Q + [131073],
+    'diff_one': [0] + BOUNDARY_SIZES_Q,
+    'meta_total': [0, 1100, 4200, 8300, 66000],
+    # multi-byte characters straddling every buffer-size boundary
+    'straddle': [0, 1100, 4200, 8300, 66000],
+}
+SCALE_DEFAULT = {'changes': 2, 'files': 2, 'pre_lines': 2, 'pre_width': 5,
+                 'indent': 4, 'meta_keys': 2, 'meta_depth': 1,
+                 'meta_strlen': 3, 'diff_lines': 3, 'diff_width': 5,
+                 'pre_total': 0, 'diff_total': 0, 'diff_one': 0,
+                 'meta_total': 0, 'straddle': 0}
+
+
+def scale_calls(cfg, enc=None, le=None):
+    """Call list for one scale configuration."""
+    nl = '\r\n' if le == 'dos' else '\n'
+
+    def text(nlines, width, tag):
+        return nl.join(('%s%d ' % (tag, i)).ljust(width, 'x')[:max(1, width)]
+                       for i in range(nlines)) + nl
+
+    def meta(tag):
+        d = {}
+        for i in range(cfg['meta_keys']):
+            d['%s-key-%04d' % (tag, i)] = 's' * cfg['meta_strlen']
+        inner = {'leaf': [1, 'two', None]}
+        for i in range(cfg['meta_depth'] - 1):
+            inner = {'level-%d' % i: inner, 'l': [inner]} if i < 6 else \
+                {'level-%d' % i: inner}
+        d['nest'] = inner
+        return d
+    from mc.alphabets import sized_text, straddle_text
+    ptext = text(cfg['pre_lines'], cfg['pre_width'], 'p')
+    if cfg.get('pre_total'):
+        ptext = sized_text(cfg['pre_total'], 'lines', nl, 'p')
+    if cfg.get('straddle'):
+        ptext = straddle_text(cfg['straddle'], enc or 'utf-8', nl)
+    mmeta = meta('main')
+    if cfg.get('meta_total'):
+        mmeta['blob'] = ['v' * 50] * (cfg['meta_total'] // 60)
+    calls = [['preamble', ptext, enc, cfg['indent'], le, None],
+             ['meta', mmeta, enc]]
+    for c in range(cfg['changes']):
+        calls.append(['change', None])
+        calls.append(['preamble', text(2, 5, 'c%d' % c), None, 4, None,
+                      None])
+        calls.append(['meta', {'id': 'c%d' % c}, None])
+        for f in range(cfg['files']):
+            calls.append(['file', None])
+            calls.append(['meta', {'path': 'f%d-%d' % (c, f)}, None])
+            if (c + f) % 2 == 0 or (c == 0 and f == 0):
+                body = text(cfg['diff_lines'] if (c == 0 and f == 0) else 2,
+                            cfg['diff_width'] if (c == 0 and f == 0) else 5,
+                            '+d').encode('ascii')
+                if c == 0 and f == 0 and cfg.get('diff_total'):
+                    body = sized_text(cfg['diff_total'], 'lines', nl,
+                                      '+').encode('ascii')
+                if c == 0 and f == 0 and cfg.get('diff_one'):
+                    body = sized_text(cfg['diff_one'], 'one', nl,
+                                      '+').encode('ascii')
+                calls.append(['diff', body, None, None, le])
+    return calls
+
+
+def scale_configs(tier):
+    out = [dict(SCALE_DEFAULT)]
+    for dim, vals in SCALE_DIMS.items():
+        for v in vals:
+            if v == SCALE_DEFAULT[dim]:
+                continue
+            c = dict(SCALE_DEFAULT)
+            c[dim] = v
+            out.append(c)
+    if tier == 'thorough':
+        dims = sorted(SCALE_DIMS)
+        for i, a in enumerate(dims):
+            for b in dims[i + 1:]:
+                for va in SCALE_DIMS[a][-3:]:
+                    for vb in SCALE_DIMS[b][-3:]:
+                        if va * vb > 3000000 or not va or not vb:
+                            continue
+                        c = dict(SCALE_DEFAULT)
+                        c[a], c[b] = va, vb
+                        out.append(c)
+    return out
+
+
+def scale_units(tier, per_unit=6):
+    cfgs = scale_configs(tier)
+    variants = [('utf-8', None, None), ('utf-8', 'utf-16', None),
+                ('utf-16', None, 'dos')]
+    items = [(ci, vi) for ci in range(len(cfgs))
+             for vi in range(len(variants))]
+    return [('scale', items[i:i + per_unit])
+            for i in range(0, len(items), per_unit)], cfgs, variants
+
+
+def wr_run_scale_unit(unit, tier, oracle, acc_cls):
+    from mc.spec import to_jsonable
+    acc = acc_cls()
+    _, cfgs, variants = scale_units(tier)
+    for ci, vi in unit[1]:
+        cfg = cfgs[ci]
+        root, enc, le = variants[vi]
+        calls = scale_calls(cfg, enc, le)
+        ex = Exec(calls, root)
+        viols = oracle(ex)
+        acc.evals += 1
+        acc.states += 1
+        acc.transitions += 1
+        acc.validated += 1
+        acc.nontrivial += 1
+        for key, msg in viols:
+            dev = sorted(k for k in cfg if cfg[k] != SCALE_DEFAULT[k])
+            acc.violation('%s:scale' % key,
+                          '%s\nscale configuration %r (root %s, enc %s, '
+                          'line endings %s)' % (str(msg)[:1500], cfg, root,
+                                                enc, le),
+                          {'kind': 'scale', 'cfg': cfg, 'variant': vi})
+        acc.outcome('ok' if not viols else 'violation')
+    acc.sample({'scale_configuration': cfgs[unit[1][0][0]]}, 1)
     return acc
